@@ -141,6 +141,22 @@ def run_documents(ck, T, n, depth, prop="C01"):
     ]
     out = ck.try_impl("gds_impl.py", {"mode": "document", "order": order, "cases": cases}, timeout=400, label="documents")
     res = out["results"] if out else []
+    # the interpreter's configuration is not input: the same documents under `python -O` (asserts stripped), with another hash
+    # seed (set/dict iteration order) and from another working directory must give the same bytes and the same documents
+    if res:
+        sub = cases[:10] + cases[-3:]
+        ref = res[:10] + res[-3:]
+        for label, kw in (("python -O", {"pyflags": ["-O"]}),
+                          ("PYTHONHASHSEED=3, cwd=/", {"extra_env": {"PYTHONHASHSEED": "3"}, "cwd": "/"})):
+            o2 = ck.try_impl("gds_impl.py", {"mode": "document", "order": order, "cases": sub}, timeout=300,
+                             label="documents[%s]" % label, **kw)
+            for case, a, b in zip(sub, ref, (o2 or {}).get("results", [])):
+                ck.tally("document-other-interpreter-configuration")
+                keys = [k for k in ("text0", "back0", "back2", "entry_mismatch", "err", "bytes_stable") if a.get(k) != b.get(k)]
+                if keys:
+                    ck.witness("%s:interpreter-configuration:%s:%s" % (prop, label.split(",")[0].replace(" ", ""), keys[0]),
+                               "under %s the written bytes / the document read back differ from the default interpreter in %s" % (label, ",".join(keys)),
+                               input=case, expected={k: a.get(k) for k in keys[:1]}, observed={k: b.get(k) for k in keys[:1]})
     for case, r in zip(cases, res):
         ck.tally("document")
         size = len(json.dumps(r.get("obj", "")))
